@@ -529,13 +529,22 @@ def shrink(ctx, c, d):
     return best, bd
 
 
+def corpus_cases():
+    import json
+    from pathlib import Path
+    d = Path(__file__).resolve().parent.parent.parent / "corpus" / "C06"
+    return [json.loads(f.read_text()) for f in sorted(d.glob("*.json"))] if d.exists() else []
+
+
 def explore(ctx) -> Exploration:
     torch.set_default_dtype(torch.float64)
     ex = Exploration()
     rng = ctx.rng
     thorough = ctx.tier == "thorough" or ctx.intensify
     transval.validate(ctx, SPEC["translate"], ex, per_fn=40 if not thorough else 200)
-    cases = gen_cases(rng, thorough)
+    cases = corpus_cases()
+    ncorpus = len(cases)
+    cases += gen_cases(rng, thorough)
     lines, plan = [], []
     for c in cases:
         real = run_real(c)
@@ -589,13 +598,13 @@ def explore(ctx) -> Exploration:
                                    case={"cfg": small, "step": sd[1], "observable": sd[2], "where": list(sd[3]),
                                          "expected": sd[4], "observed": sd[5],
                                          "disagreement": "code vs specification" if sd[0] == "spec" else "code vs code-shaped model"}))
-    ex.rule = ("grid: 4 connection kinds x 4 synapse kinds x delay tensors {heterogeneous, homogeneous, all-zero, no delay parameter, off-grid, "
+    ex.rule = ("corpus (regression inputs of D14 and of the transposed-selector mutant) + grid: 4 connection kinds x 4 synapse kinds x delay tensors {heterogeneous, homogeneous, all-zero, no delay parameter, off-grid, "
                "single entries beyond max} with dt in {1, 1/2}, max delay in {0..4}*dt (and half steps), bias on/off, batch 1-2, optional clear() "
                "mid-run, max delay set by constructor or by the synapse's setter, tolerance 0 / dt/8, overbound default / None; the same pairs "
                "with dt = 1.3 (partial (float), 1e-6); random extras with dt in {1/4, 1/2, 1, 2}; every case is stepped on the delayed connection "
                "and on an undelayed twin; non-trivial = at least one input spike; distinct = distinct (pair, dt, weights, delays, spike trains)")
-    ex.samples = [{k: v for k, v in cases[0].items() if k != "steps"}, {k: v for k, v in cases[-1].items() if k != "steps"}]
-    ex.extra["streams"] = {"cases": len(cases), "driver_lines": len(lines)}
+    ex.samples = [{k: v for k, v in cases[ncorpus].items() if k != "steps"}, {k: v for k, v in cases[-1].items() if k != "steps"}]
+    ex.extra["streams"] = {"corpus": ncorpus, "generated": len(cases) - ncorpus, "driver_lines": len(lines)}
     ex.extra["partial_float_dt_1.3"] = floaty
     return ex
 
